@@ -3,7 +3,6 @@ import MythVerif.Proofs.WsQueueTsoTac
 namespace MythVerif.WsqTso
 open MythVerif.Wsq
 
-set_option maxHeartbeats 4000000 in
 theorem t_tq0 (s s' : St) (p : Pid) : Inv s → s.tpc p = .tq0 → stepT s p = some s' → Inv s' := by
   intro h heq hs
   have hb := h.tbufE p (by simp [heq, mayBuf])
@@ -11,7 +10,6 @@ theorem t_tq0 (s s' : St) (p : Pid) : Inv s → s.tpc p = .tq0 → stepT s p = s
   simp at hs; subst hs
   tso_fastT h p []
 
-set_option maxHeartbeats 4000000 in
 theorem t_tq1 (s s' : St) (p : Pid) (t) : Inv s → s.tpc p = .tq1 t → stepT s p = some s' → Inv s' := by
   intro h heq hs
   have hb := h.tbufE p (by simp [heq, mayBuf])
@@ -20,7 +18,6 @@ theorem t_tq1 (s s' : St) (p : Pid) (t) : Inv s → s.tpc p = .tq1 t → stepT s
   all_goals (simp at hs; subst hs)
   all_goals tso_fastT h p []
 
-set_option maxHeartbeats 4000000 in
 theorem t_tkl (s s' : St) (p : Pid) : Inv s → s.tpc p = .tkl → stepT s p = some s' → Inv s' := by
   intro h heq hs
   have hb := h.tbufE p (by simp [heq, mayBuf])
@@ -31,7 +28,6 @@ theorem t_tkl (s s' : St) (p : Pid) : Inv s → s.tpc p = .tkl → stepT s p = s
     tso_fastT h p []
   · simp at hs; subst hs; exact h
 
-set_option maxHeartbeats 4000000 in
 theorem t_tk1 (s s' : St) (p : Pid) : Inv s → s.tpc p = .tk1 → stepT s p = some s' → Inv s' := by
   intro h heq hs
   have hb := h.tbufE p (by simp [heq, mayBuf])
@@ -39,7 +35,6 @@ theorem t_tk1 (s s' : St) (p : Pid) : Inv s → s.tpc p = .tk1 → stepT s p = s
   simp at hs; subst hs
   tso_fastT h p []
 
-set_option maxHeartbeats 4000000 in
 theorem t_tkf (s s' : St) (p : Pid) (b) : Inv s → s.tpc p = .tkf b → stepT s p = some s' → Inv s' := by
   intro h heq hs
   have hcfg := h.cfg
